@@ -12,5 +12,6 @@ echo "== with patch: demo"; cargo test --offline $TARGET -- "$@" 2>&1 | grep -E 
 git apply -R $S/patch.diff; sleep 1; touch $(grep "^+++ b/" $S/patch.diff | sed "s|+++ b/||")
 echo "== without patch: demo"; cargo test --offline $TARGET -- "$@" 2>&1 | grep -E "^test result|error(\[|:)" | tail -4
 git apply -R $S/demo.diff; git apply $S/patch.diff; sleep 1; touch $(grep "^+++ b/" $S/patch.diff | sed "s|+++ b/||")
-echo "== with patch only: existing tests ($TARGET)"; cargo test --offline $TARGET 2>&1 | grep -E "^test result|error(\[|:)" | tail -3
+EX=${EXISTING:-$TARGET}
+echo "== with patch only: existing tests ($EX)"; cargo test --offline $EX 2>&1 | grep -E "^test result|error(\[|:)" | tail -3
 git reset -q --hard HEAD; git clean -fdq -e target
